@@ -81,6 +81,8 @@ def bounded(rep, tier, seed):
         defaults = [t for t in DEFAULT_TARGETS if t in allv.columns]
         base, _ = apirel.simulate(e, pop, targets=defaults)
         dag = e.dag(data_cols=list(pop.columns))
+        dag_all = e.dag(targets=nodes, data_cols=list(pop.columns))
+        desc_all = {n_: {x for x in nx.descendants(dag_all, n_) if x in allv.columns and allv[x].dtype != object} for n_ in nodes if n_ in dag_all}
         fno, _ = e.universe(None, list(pop.columns))
         n_eval += 2
         by_class = {}
@@ -96,6 +98,7 @@ def bounded(rep, tier, seed):
             for cls, lst in by_class.items():
                 sample += rng.sample(lst, min(len(lst), 8 if cls == "scalar_rule" else 5))
             sample += [t for t in defaults if t not in sample][:6]
+            sample += [n_ for n_ in nodes if allv[n_].dtype.kind == "M" and n_ not in sample]  # date-valued nodes always
         else:
             sample = nodes
         for n_ in sample:
@@ -113,7 +116,9 @@ def bounded(rep, tier, seed):
                     data[n_] = pd.Series(col.to_numpy())  # RangeIndex: entries do not share one index
                 if form == "dict" and tier == "quick" and rng.random() < 0.6 and remove_group_suffix(n_) == n_:
                     continue
-                tg = [t for t in defaults if t != n_]
+                # every default target and every column computed FROM the supplied one (the statement is
+                # about all targets, not only the default list)
+                tg = sorted((set(defaults) | (desc_all.get(n_) or set())) - {n_})
                 try:
                     res, w = apirel.simulate(e, data, targets=tg)
                 except Exception as ex:  # noqa: BLE001
@@ -121,7 +126,7 @@ def bounded(rep, tier, seed):
                     continue
                 n_eval += 1
                 distinct.add((d, n_, form))
-                diff = apirel.compare_frames(base, res, tg, rtol=1e-12, atol=1e-9)
+                diff = apirel.compare_frames(allv, res, tg, rtol=1e-12, atol=1e-9)
                 if diff:
                     bad.append({"what": f"{d}: supplying {n_} with the values the system computes ({form} input) changes {diff[:4]}", "node": n_, "date": d, "form": form})
                 anc_of_targets = any(n_ == t or n_ in nx.ancestors(dag, t) for t in tg if t in dag)
